@@ -1,0 +1,132 @@
+/*
+ * Verification trace hooks (compiled in only with -DOPENSMT_VERIF).
+ *
+ * When the environment variable OPENSMT_VERIF_TRACE names a file, the guarded hook sites append one
+ * record per line to it: term-table entries, SAT-variable/term links, input / theory / learnt /
+ * derived clauses and answers.  Without the define every macro below expands to nothing.
+ */
+#ifndef OPENSMT_VERIFTRACE_H
+#define OPENSMT_VERIFTRACE_H
+
+#ifdef OPENSMT_VERIF
+
+#include <minisat/core/SolverTypes.h>
+#include <pterms/PTRef.h>
+
+#include <cstdarg>
+#include <cstdio>
+#include <cstdlib>
+#include <set>
+#include <string>
+#include <utility>
+
+namespace opensmt::verif {
+inline FILE * out() {
+    static FILE * f = []() -> FILE * {
+        char const * p = std::getenv("OPENSMT_VERIF_TRACE");
+        return p ? std::fopen(p, "w") : nullptr;
+    }();
+    return f;
+}
+
+inline bool on() {
+    return out() != nullptr;
+}
+
+inline int lit2int(Lit l) {
+    return sign(l) ? -(var(l) + 1) : (var(l) + 1);
+}
+
+inline void line(char const * fmt, ...) __attribute__((format(printf, 1, 2)));
+inline void line(char const * fmt, ...) {
+    FILE * f = out();
+    if (!f) return;
+    va_list ap;
+    va_start(ap, fmt);
+    std::vfprintf(f, fmt, ap);
+    va_end(ap);
+    std::fputc('\n', f);
+    std::fflush(f);
+}
+
+// percent-encoding of everything that is not a printable non-space ASCII character
+inline std::string enc(std::string const & s) {
+    if (s.empty()) return "%";
+    std::string r;
+    char buf[4];
+    for (unsigned char c : s) {
+        if (c <= 32 or c >= 127 or c == '%') {
+            std::snprintf(buf, sizeof buf, "%%%02X", c);
+            r += buf;
+        } else {
+            r += static_cast<char>(c);
+        }
+    }
+    return r;
+}
+
+// "<tag> <solver> <prefix> l1 l2 ... 0"
+template<typename C>
+inline void clause(char const * tag, void const * s, char const * prefix, C const & c, unsigned n) {
+    FILE * f = out();
+    if (!f) return;
+    std::fprintf(f, "%s %p%s%s", tag, s, prefix[0] ? " " : "", prefix);
+    for (unsigned i = 0; i < n; ++i)
+        std::fprintf(f, " %d", lit2int(c[i]));
+    std::fprintf(f, " 0\n");
+    std::fflush(f);
+}
+
+// term table: "t <logic> <id> <flags> <sort> <symbol> <child-id>*", children first, each term once
+template<typename LogicT>
+inline void term(LogicT const & logic, PTRef tr) {
+    if (!on()) return;
+    static std::set<std::pair<void const *, uint32_t>> seen;
+    auto key = std::make_pair(static_cast<void const *>(&logic), tr.x);
+    if (seen.count(key)) return;
+    auto const & pt = logic.getPterm(tr);
+    for (PTRef ch : pt)
+        term(logic, ch);
+    seen.insert(key);
+    std::string ln = "t ";
+    char buf[64];
+    std::snprintf(buf, sizeof buf, "%p %u ", static_cast<void const *>(&logic), tr.x);
+    ln += buf;
+    auto const & sym = logic.getSym(pt.symb());
+    int flags = (sym.isInterpreted() ? 1 : 0) | (logic.isConstant(pt.symb()) ? 2 : 0);
+    std::snprintf(buf, sizeof buf, "%d ", flags);
+    ln += buf;
+    ln += enc(logic.sortToString(logic.getSortRef(tr)));
+    ln += ' ';
+    ln += enc(logic.getSymName(tr));
+    for (PTRef ch : pt) {
+        std::snprintf(buf, sizeof buf, " %u", ch.x);
+        ln += buf;
+    }
+    line("%s", ln.c_str());
+}
+} // namespace opensmt::verif
+
+#define VERIF_ON() (::opensmt::verif::on())
+#define VERIF_CLAUSE(tag, prefix, c, n)                                                                                 \
+    ::opensmt::verif::clause(tag, static_cast<void const *>(static_cast<CoreSMTSolver const *>(this)), prefix, c, n)
+#define VERIF_CLAUSE_S(tag, s, prefix, c, n) ::opensmt::verif::clause(tag, static_cast<void const *>(s), prefix, c, n)
+#define VERIF_LINE(...) ::opensmt::verif::line(__VA_ARGS__)
+#define VERIF_TERM(logic, tr) ::opensmt::verif::term(logic, tr)
+#else
+#define VERIF_ON() (false)
+#define VERIF_CLAUSE(tag, prefix, c, n)                                                                                 \
+    do {                                                                                                               \
+    } while (0)
+#define VERIF_CLAUSE_S(tag, s, prefix, c, n)                                                                            \
+    do {                                                                                                               \
+    } while (0)
+#define VERIF_LINE(...)                                                                                                \
+    do {                                                                                                               \
+    } while (0)
+#define VERIF_TERM(logic, tr)                                                                                          \
+    do {                                                                                                               \
+    } while (0)
+#endif
+
+#endif // OPENSMT_VERIFTRACE_H
